@@ -16,6 +16,7 @@ RULE = ("per named curve: d in {1, 2, 3, n-1, n-2, 256^(l-1)-1, 256^(l-1), 256^(
         "(ECPrivateKey without publicKey / with a short privateKey, PKCS#8 version 0 / ecDH / ecMQV / trailing "
         "attributes); out-of-range secret exponents; base64/PEM armour on all short inputs and odd line structures. "
         "distinct = operation line; non-trivial = every case with a valid key (all but the out-of-range ones)")
+LEANCHECK = ["Props.C09"]
 ASSUMPTIONS = [
     "generic theorems: Q = dG (Ext.pubPoint), the square root and base64.b64decode are parameters with their contracts as "
     "hypotheses; all_round_trips_model discharges them on the composed model (C07 via GroupInterface with the base-point "
@@ -30,7 +31,7 @@ ASSUMPTIONS = [
 def scalars(ctx, ci):
     n, nl = ci.n, ci.nl
     ds = [1, 2, 3, n - 1, n - 2, 256 ** (nl - 1) - 1, 256 ** (nl - 1), 256 ** max(0, nl - 2) - 1]
-    for _ in range(1 if ctx.quick else 6):
+    for _ in range(1 if ctx.quick else 24):
         ds.append(ctx.rng.randrange(1, n))
     # first d whose public x resp. y has a leading zero byte (small multiples are cheap)
     from ecdsa import SigningKey
